@@ -24,5 +24,11 @@ def main():
                     print("warmed", info)
                 except extract.ExtractError as e:
                     print("WARNING: harness %s could not be warmed: %s" % (h, str(e)[-500:]))
+    try:
+        from . import witness
+        res, _ = witness.run_witnesses()
+        print("warmed witness crate (%d doc tests)" % len(res))
+    except extract.ExtractError as e:
+        print("WARNING: witness crate could not be warmed: %s" % str(e)[-500:])
     print("setup done in %.1fs" % (time.time() - t0))
     return 0
